@@ -139,7 +139,7 @@ def gen_history(st):
                 programs[s].append({"op": "new_hier", "obj": objs, "dict": rng.below(len(dicts)), "use_c": bool(rng.below(2)), "tree": bool(rng.below(2)),
                                     "max_dist": rng.choice(["inf", 2.0, 4.0])}); objs += 1
             elif k < 36:
-                programs[s].append({"op": "new_km", "obj": objs, "k": 1 + rng.below(2), "dict": dref(), "use_c": bool(rng.below(2))}); objs += 1
+                programs[s].append({"op": "new_km", "obj": objs, "k": 1 + rng.below(2), "dict": dref(), "use_c": bool(rng.below(2)), "pp": bool(rng.below(2))}); objs += 1
             elif k < 38:
                 # concurrent callers: 2-3 threads, each running a short private program (no object is shared between them)
                 progs = []
@@ -498,7 +498,8 @@ def run_op(pool, op, alone):
             o = dict(_opts(pool, op["dict"]))
             o = {k: v for k, v in o.items() if k in ("window", "penalty")}
             o["use_c"] = op["use_c"]
-            pool.objs[op["obj"]] = ("km", KMeans(k=op["k"], max_it=2, max_dba_it=2, dists_options=o, show_progress=False))
+            pool.objs[op["obj"]] = ("km", KMeans(k=op["k"], max_it=2, max_dba_it=2, dists_options=o, show_progress=False,
+                                                 initialize_with_kmeanspp=op.get("pp", True)))
             return "created"
         if kind == "use":
             ent = pool.objs.get(op["obj"])
@@ -690,6 +691,18 @@ def execute(history):
                     elif not same_tol(cres, live):
                         add({"class": "container-dependence", "detail": "%s returned %s on the pooled representation, %s on contiguous copies of the same numbers"
                                                                        % (json.dumps(op)[:200], str(live)[:160], str(cres)[:160])}, opi)
+                elif kind == "use" and not _is_exc(live):
+                    # long-lived model objects too: the same object built and asked on canonical contiguous copies
+                    canon = Pool(setup, canonical=True)
+                    cr = creators.get(op["obj"])
+                    if cr is not None and not _is_exc(twin):
+                        run_op(canon, cr, alone=True)
+                        cres = run_op(canon, op, alone=True)
+                        if _is_exc(cres):
+                            bump("canonical_raised:" + cres[1])
+                        elif not same_tol(cres, twin):
+                            add({"class": "container-dependence", "detail": "%s on an object built from the pooled representations returns %s, built from contiguous copies of the same numbers %s"
+                                                                           % (json.dumps(op)[:200], str(twin)[:160], str(cres)[:160])}, opi)
                 elif _is_exc(live):
                     bump("raised:" + live[1])
         except sessions.OpTimeout:
